@@ -245,16 +245,25 @@ def run_case(case, mir, schema, native=None, quick=True):
             res["inconclusive"].append("vacuous: no accepted (Ok) outcome is reachable under the assumptions")
         # vacuity: every Ok outcome must be satisfiable
         nreach = 0
+        nunknown = 0
         for (o, ci) in finals:
             if outcome_kind(o) == "ok":
-                okr, _ = h.reachable(o)
+                if nunknown >= 2 and nreach == 0:
+                    nunknown += 1
+                    continue  # hard nonlinear path conditions: leave the witness to the concrete runs (below)
+                okr, _ = h.reachable(o, tmo_ms=15000)
                 nreach += 1 if okr else 0
                 if okr is None:
+                    nunknown += 1
                     res.setdefault("notes", []).append("reachability of an Ok outcome: solver unknown")
         res["reachable_ok_outcomes"] = nreach
         if case.expect_ok and nreach == 0 and res["status"] == "pass":
-            res["status"] = "inconclusive"
-            res["inconclusive"].append("vacuous: Ok outcomes exist but none is satisfiable")
+            if nunknown:
+                # decided after translator validation: a sampled input on which the interpreter and the real build both accept is the witness
+                res["vacuity_pending"] = True
+            else:
+                res["status"] = "inconclusive"
+                res["inconclusive"].append("vacuous: Ok outcomes exist but none is satisfiable")
     except (Unsupported, Inconclusive) as e:
         res["status"] = "inconclusive"
         res["inconclusive"].append(f"{type(e).__name__}: {e}")
